@@ -162,7 +162,7 @@ func (e Engine) newDB(config dvid.StoreConfig) (*BadgerDB, bool, error) {
 	if err != nil {
 		return nil, false, err
 	}
-	badgerDB.bdp = bdp
+	badgerDB.bdp = wrapVerifDB(bdp)
 
 	go syncPeriodically(badgerDB)
 
@@ -238,7 +238,7 @@ type BadgerDB struct {
 	config dvid.StoreConfig
 
 	options *badger.Options
-	bdp     *badger.DB
+	bdp     *verifDB // *badger.DB (wrapped when built with the tag verif)
 
 	// stopSyncCh is used to signal the sync goroutine to stop.
 	stopSyncCh chan bool
